@@ -55,6 +55,7 @@ type c06Run struct {
 	exactHits    int      // header / trailer blocks of exactly the targeted length (adaptive scripts)
 	held         int      // operations issued while a writer was parked inside a DATA frame
 	pairs        int      // pairs of requests opened with the delay hook
+	lateHits     int      // ... that the client handled while the stream was still in cc.streams
 	late         int      // DATA frames sent after Body.Close and before the stream's teardown
 	glued        int      // SETTINGS frames sent in one segment with the next peer frame
 	streamOwed   int64    // worst stream-level credit owed on a response that is still being read
@@ -120,6 +121,9 @@ func c06ExecMode(t testing.TB, cfg c06Cfg, script []c06Op, gen func(e *c06Env, n
 			}
 			if !follows {
 				unglue()
+				if n >= len(script) && gen != nil {
+					op = gen(e, n) // chosen again, on the state with the SETTINGS frame acknowledged
+				}
 			}
 		}
 		if op == nil || e.closed {
@@ -343,6 +347,7 @@ func c06ExecMode(t testing.TB, cfg c06Cfg, script []c06Op, gen func(e *c06Env, n
 	run.lostWakeups = append([]string{}, e.lostWakeups...)
 	run.exactHits = e.exactHits
 	run.held = e.heldCount
+	run.lateHits = e.lateHits
 	if !e.closed {
 		run.streamOwed, run.streamOwedAt = e.streamCreditOwed()
 	}
@@ -479,6 +484,28 @@ func c06Judge(s *verifh.Session, runs []*c06Run) {
 		}
 		for k := 0; k < r.pairs; k++ {
 			s.Count("open-pair")
+		}
+		for k := 0; k < r.glued; k++ {
+			s.Count("settings-glued-to-next-frame")
+		}
+		for k := 0; k < r.late; k++ {
+			s.Count("data-after-close")
+		}
+		for k := 0; k < r.lateHits; k++ {
+			s.Count("data-after-close-before-teardown")
+		}
+		for _, tok := range r.tokens {
+			if strings.HasPrefix(tok, "ps:") {
+				seen := map[string]bool{}
+				for _, kv := range strings.Split(tok[3:], "/") {
+					id := strings.SplitN(kv, "=", 2)[0]
+					if seen[id] {
+						s.Count("settings-repeated-id")
+						break
+					}
+					seen[id] = true
+				}
+			}
 		}
 		if !creditOK {
 			s.Count("credit-owed")
@@ -1390,7 +1417,7 @@ func c06Gen(r *rand.Rand, maxOps int) func(e *c06Env, n int) *c06Op {
 // against the Lean strict-peer monitor.
 func TestVerif_C06_script(t *testing.T) {
 	s := verifh.New(t, "C06", "script",
-		"real ClientConn (Transport.NewClientConn, loopback TCP) against a frame-script peer (x/net/http2 Framer + hpack), one caller/peer operation at a time to quiescence; 59 directed scripts (body sizes around 16384/65535/window+-1, INITIAL_WINDOW_SIZE up/down/negative, MAX_FRAME_SIZE, MAX_CONCURRENT_STREAMS, WINDOW_UPDATE increments and overflow, RST_STREAM, GOAWAY, padding, reads around the 4096 refresh threshold, close with unread data, browser presets, caller fingerprints; round 5, through a gate between the ClientConn and the socket that parks the writer inside a frame write: a request cancelled after a chosen octet of its header / trailer block (oc, tc), Body.Close / Body.Read / cancel on one stream while another stream's writer holds cc.wmu inside a DATA frame (hx, hr, hc), two requests with the first held between id allocation and HEADERS (open pairs), requests queued for a stream slot across SETTINGS changes) + random scripts of up to 60 operations on default/Chrome/Firefox/Safari/random fingerprints; compared: per-operation frame list (type, stream, length, flags, settings, increments) with the Lean model; property oracle: Lean monitor verdict on the recorded history, no unexpected connection close, no stall, connection- and stream-level credit owed < 4096, no lost wake-up; non-trivial = at least 4 operations")
+		"real ClientConn (Transport.NewClientConn, loopback TCP) against a frame-script peer (x/net/http2 Framer + hpack), one caller/peer operation at a time to quiescence; 62 directed scripts (body sizes around 16384/65535/window+-1, INITIAL_WINDOW_SIZE up/down/negative, MAX_FRAME_SIZE, MAX_CONCURRENT_STREAMS, WINDOW_UPDATE increments and overflow, RST_STREAM, GOAWAY, padding, reads around the 4096 refresh threshold, close with unread data, browser presets, caller fingerprints; round 5, through a gate between the ClientConn and the socket that parks the writer inside a frame write: a request cancelled after a chosen octet of its header / trailer block (oc, tc), Body.Close / Body.Read / cancel on one stream while another stream's writer holds cc.wmu inside a DATA frame (hx, hr, hc), two requests with the first held between id allocation and HEADERS (open pairs), requests queued for a stream slot across SETTINGS changes; round 7: SETTINGS frames that repeat identifiers (last one stands), SETTINGS sent in one segment with the next peer frame (acknowledged before any barrier PING), DATA sent after Body.Close while the stream's teardown waits for cc.wmu) + random scripts of up to 60 operations on default/Chrome/Firefox/Safari/random fingerprints; compared: per-operation frame list (type, stream, length, flags, settings, increments) with the Lean model; property oracle: Lean monitor verdict on the recorded history, no unexpected connection close, no stall, connection- and stream-level credit owed < 4096, no lost wake-up; non-trivial = at least 4 operations")
 	log.SetOutput(io.Discard)
 	s.OracleIndependent = true // DATA/WINDOW_UPDATE sizes are the implementation's choice, the monitor is the property
 	var runs []*c06Run
